@@ -770,10 +770,10 @@ func runAlloc(c *Ctx) {
 		}
 	}
 	if c.Prop == "C04" {
-		runAllocConcurrent(c, c.Scale(15000, 400000))
+		runAllocConcurrent(c, c.Scale(15000, 60000))
 	}
-	if c.Prop == "C06" || c.Prop == "C07" {
-		runAllocConcurrent(c, c.Scale(4000, 100000)) // incl. simultaneous Free calls of one block, Free mixed with hinted Allocate
+	if c.Prop == "C05" || c.Prop == "C06" || c.Prop == "C07" {
+		runAllocConcurrent(c, c.Scale(4000, 30000)) // incl. simultaneous Free calls of one block, Free mixed with hinted Allocate
 	}
 	c.Extra["rule"] = "histories of 1..200 Allocate/Free ops on IPv4 ranges (sizes 1,2,3,63,64,65,127..129,1000, ending at 255.255.255.255) and IPv6 pools (/0../127 x order 0..10, v4-mapped); hints free/taken/outside/malformed, frees outstanding/sub-prefix/unallocated/below/above/malformed; non-trivial = distinct history with >=2 ops and >=1 successful allocation"
 }
